@@ -78,12 +78,13 @@ def pick_filters(R, pk):
 RDH_ROW_WIDTHS = [6, 7, 7, 6, 8, 6, 10, 5, 12, 11, 10, 9, 5]
 
 
-def parse_view_rdh(stdout):
-    """rows of `view rdh -d`: fixed-width columns (a full 32-bit trigger type fills its column)"""
+def parse_view_rdh(stdout, start=11):
+    """rows of `view rdh -d`: fixed-width columns (a full 32-bit trigger type fills its column);
+    the styled view has one space less after the offset (start=10)"""
     rows = []
     for l in stdout.decode('utf-8', 'replace').split('\n'):
         if len(l) > 12 and l[8:9] == ':' and l[:8].strip() and all(c in '0123456789ABCDEF' for c in l[:8].strip()):
-            pos, toks = 11, []
+            pos, toks = start, []
             for w in RDH_ROW_WIDTHS:
                 toks.append(l[pos:pos + w].strip()); pos += w
             toks.append(l[pos:].strip())
